@@ -50,6 +50,7 @@ type Case struct {
 	Ops      []Op   `json:"ops"`
 	Muts     []Mut  `json:"muts"`
 	All      bool   `json:"all,omitempty"` // additionally truncate at every offset (thorough tier)
+	Big      int    `json:"big,omitempty"` // > 0: write this many MiB of chunk records after one commit (intermediate-sync path); nothing else is done
 }
 
 type OpOut struct {
@@ -104,12 +105,23 @@ type Obs struct {
 	Known   [][]int  `json:"known"`
 	Muts    []MutOut `json:"muts"`
 	Fn      FnObs    `json:"fn"`
+	Index   []int    `json:"index"` // journal.idx after Close
+	Big     BigObs   `json:"big"`
+}
+
+// BigObs: a history large enough to cross journalMaybeSyncThreshold (a constant: cannot be lowered), checked on the Go side only.
+type BigObs struct {
+	Ran       bool `json:"ran"`
+	AutoRoots int  `json:"autoroots"` // root records in the journal beyond the explicit commits
+	Batches   int  `json:"batches"`
+	IdxInv    bool `json:"idxinv"`    // every batch: each chunk record starting below the meta's end has its lookup in this or an earlier batch
+	EndIsRoot bool `json:"endisroot"` // every meta's end is the offset of a root record
 }
 
 // FnObs: function-level cross-checks on the undamaged journal image.
 type FnObs struct {
-	RecordsOk bool `json:"recordsok"` // concatenating writeChunkRecord/writeRootHashRecord outputs reproduces the journal
-	ProcOff   int64 `json:"procoff"`  // processJournalRecords over the in-memory image
+	RecordsOk bool  `json:"recordsok"` // concatenating writeChunkRecord/writeRootHashRecord outputs reproduces the journal
+	ProcOff   int64 `json:"procoff"`   // processJournalRecords over the in-memory image
 	ProcRecs  int   `json:"procrecs"`
 	DataLoss  bool  `json:"dataloss"` // possibleDataLossCheck over the whole image
 }
@@ -361,10 +373,100 @@ func fnChecks(h *Hist) (f FnObs) {
 	return f
 }
 
+// bigRun writes one commit and then mib MiB of 4 MiB chunk records (crossing journalMaybeSyncThreshold, so that
+// writeCompressedChunk commits the current root by itself), one more commit, closes, and checks the index file
+// against the journal with the real parsers.
+func bigRun(mib int, maxnovel int) (b BigObs, err error) {
+	dir, err := os.MkdirTemp("/tmp", "c03-big-")
+	if err != nil {
+		return b, err
+	}
+	defer os.RemoveAll(dir)
+	path := filepath.Join(dir, nbs.VerifC03JournalFileName())
+	restore := nbs.VerifC03SetTimestamp(func() uint64 { return 7 })
+	defer restore()
+	w, err := nbs.VerifC03Create(path, maxnovel)
+	if err != nil {
+		return b, err
+	}
+	var root hash.Hash
+	root[0] = 9
+	if err = w.CommitRootHash(root); err != nil {
+		return b, err
+	}
+	payload := make([]byte, 4<<20)
+	commits := 1
+	for i := 0; i*4 < mib; i++ {
+		var a hash.Hash
+		a[0], a[1], a[2] = byte(i), byte(i>>8), 0x5a
+		payload[0] = byte(i)
+		if err = w.WriteRaw(a, payload); err != nil {
+			return b, err
+		}
+	}
+	root[1] = 1
+	if err = w.CommitRootHash(root); err != nil {
+		return b, err
+	}
+	commits++
+	if err = w.Close(); err != nil {
+		return b, err
+	}
+	journal, err := os.ReadFile(path)
+	if err != nil {
+		return b, err
+	}
+	idx, _ := os.ReadFile(filepath.Join(dir, nbs.VerifC03IndexFileName()))
+	_, recs, _, perr := nbs.VerifC03ProcessJournalRecords(journal, 0)
+	if perr != nil {
+		return b, perr
+	}
+	_, batches, ierr := nbs.VerifC04ProcessIndexRecords(idx)
+	if ierr != nil {
+		return b, ierr
+	}
+	b.Ran = true
+	roots := map[int64]bool{}
+	nroots := 0
+	for _, r := range recs {
+		if r.Kind == 1 {
+			roots[r.Off] = true
+			nroots++
+		}
+	}
+	b.AutoRoots = nroots - commits
+	b.Batches = len(batches)
+	b.IdxInv, b.EndIsRoot = true, true
+	seen := map[uint64]bool{}
+	for _, bt := range batches {
+		for _, l := range bt.Lookups {
+			seen[l.Offset] = true
+		}
+		if !roots[bt.End] {
+			b.EndIsRoot = false
+		}
+		for _, r := range recs {
+			if r.Kind == 2 && r.Off < bt.End && !seen[uint64(r.Off)+uint64(r.PayloadOff)] {
+				b.IdxInv = false
+			}
+		}
+	}
+	return b, nil
+}
+
 func Run(raw json.RawMessage) (any, error) {
 	var c Case
 	if err := json.Unmarshal(raw, &c); err != nil {
 		return nil, err
+	}
+	if c.Big > 0 {
+		b, err := bigRun(c.Big, c.Maxnovel)
+		if err != nil {
+			return nil, err
+		}
+		return Obs{Poly: nbs.VerifC03CrcPoly(), Bufsz: nbs.VerifC03BuffSize(), RootSz: nbs.VerifC03RootHashRecordSize(),
+			Ops: []OpOut{}, Journal: []int{}, Known: [][]int{}, Muts: []MutOut{}, Index: []int{}, Big: b,
+			Fn: FnObs{RecordsOk: true}}, nil
 	}
 	if c.Bufsz != 0 {
 		old := nbs.VerifC03SetBuffSize(c.Bufsz)
@@ -375,7 +477,7 @@ func Run(raw json.RawMessage) (any, error) {
 		return nil, err
 	}
 	o := Obs{Poly: nbs.VerifC03CrcPoly(), Bufsz: nbs.VerifC03BuffSize(), RootSz: nbs.VerifC03RootHashRecordSize(),
-		Ops: h.Ops, Journal: FromBytes(h.Journal), Muts: []MutOut{}}
+		Ops: h.Ops, Journal: FromBytes(h.Journal), Muts: []MutOut{}, Index: FromBytes(h.Index)}
 	for _, k := range h.Known {
 		o.Known = append(o.Known, FromBytes(k[:]))
 	}
